@@ -321,6 +321,11 @@ impl<'a> World<'a> {
                     });
                     self.durable = None;
                 }
+                WriteOutcome::CrashedBesideStore => {
+                    // the store is intact: what is durable does not change
+                    self.stats.bump("fault.crash_during_save");
+                    self.stats.bump("fault.torn_temporary_file");
+                }
                 WriteOutcome::TornByCrash(k) => {
                     self.stats.bump("fault.crash_during_save");
                     self.stats.bump(if *k == 0 {
@@ -1287,7 +1292,7 @@ impl<'a> World<'a> {
             }
             Scenario::UserfileFaults => {
                 // F3: a failed save must not end the session abnormally.
-                let failed = outcomes.iter().any(|o| !matches!(o, WriteOutcome::Complete | WriteOutcome::TornByCrash(_)));
+                let failed = outcomes.iter().any(|o| !matches!(o, WriteOutcome::Complete | WriteOutcome::TornByCrash(_) | WriteOutcome::CrashedBesideStore));
                 if failed && host_alive {
                     self.stats.evaluations += 1;
                     self.stats.bump("oracle.F3_failed_save_judged");
